@@ -1,5 +1,226 @@
 package main
 
-import "errors"
+import (
+	"bufio"
+	"context"
+	"encoding/json"
+	"errors"
+	"fmt"
+	"hash/fnv"
+	"math/rand"
+	"os"
+	"runtime"
+	"sync"
+	"time"
 
-func runC10(in, out string, seed int64) error { return errors.New("not implemented") }
+	"go.uber.org/zap/zapcore"
+
+	"go.opentelemetry.io/collector/component"
+	"go.opentelemetry.io/collector/config/configtelemetry"
+	"go.opentelemetry.io/collector/extension"
+	"go.opentelemetry.io/collector/service"
+	"go.opentelemetry.io/collector/service/extensions"
+	"go.opentelemetry.io/collector/service/pipelines"
+	"go.opentelemetry.io/collector/service/telemetry"
+)
+
+// quietServiceConfig: no own telemetry output (logs at fatal level, metrics off).
+func quietServiceConfig(exts extensions.Config, pipes pipelines.Config) service.Config {
+	return service.Config{
+		Telemetry: telemetry.Config{
+			Logs: telemetry.LogsConfig{
+				Level:            zapcore.FatalLevel,
+				Encoding:         "console",
+				OutputPaths:      []string{"stderr"},
+				ErrorOutputPaths: []string{"stderr"},
+			},
+			Metrics: telemetry.MetricsConfig{Level: configtelemetry.LevelNone},
+		},
+		Extensions: exts,
+		Pipelines:  pipes,
+	}
+}
+
+// Obs10 is the call log of one service lifetime.
+type Obs10 struct {
+	I         int     `json:"i"`
+	NewErr    *string `json:"new_err"`
+	Panic     *string `json:"panic"`
+	Timeout   bool    `json:"timeout"`
+	Events    []Event `json:"events"`     // create / start / start_end / shutdown / shutdown_end / inner_* in call order
+	StartOK   *bool   `json:"start_ok"`   // service.Start returned nil
+	StartIs   *bool   `json:"start_is"`   // the returned error wraps the scripted failure of the component (errors.Is)
+	StartErr  string  `json:"start_err"`  // text, for the report only
+	StopOK    *bool   `json:"stop_ok"`    // service.Shutdown returned nil
+	StopIsAll *bool   `json:"stop_isall"` // the returned error wraps every scripted shutdown failure that happened
+	StopErr   string  `json:"stop_err"`
+}
+
+func runOne10(i int, cfg *Config, seed int64) (obs Obs10) {
+	obs = Obs10{I: i, Events: []Event{}}
+	h := fnv.New64a()
+	fmt.Fprintf(h, "c10/%d/%d", seed, i)
+	rng := rand.New(rand.NewSource(int64(h.Sum64())))
+	w := newWorld()
+	for _, f := range cfg.Fail {
+		w.fail[f] = true
+	}
+	defer func() {
+		if r := recover(); r != nil {
+			buf := make([]byte, 4096)
+			buf = buf[:runtime.Stack(buf, false)]
+			obs.Panic = sptr(fmt.Sprintf("%v\n%s", r, buf))
+		}
+		w.mu.Lock()
+		obs.Events = append(obs.Events, w.events...)
+		w.mu.Unlock()
+	}()
+	wi := wire(w, cfg, rng)
+	// no connector takes the per-pipeline route here: no data flows in C10
+	extCfg := map[component.ID]component.Config{}
+	extFac := map[component.Type]extension.Factory{}
+	var svcExts extensions.Config
+	for _, x := range shuffled(rng, cfg.Exts) {
+		id := component.MustNewID(x)
+		var deps []component.ID
+		for _, d := range cfg.Deps[x] {
+			deps = append(deps, component.MustNewID(d))
+		}
+		extCfg[id] = &extConfig{Deps: deps}
+		extFac[id.Type()] = w.extensionFactory(x)
+		svcExts = append(svcExts, id)
+	}
+	ctx := context.Background()
+	set := service.Settings{
+		BuildInfo:           component.NewDefaultBuildInfo(),
+		ReceiversConfigs:    wi.rcvCfg,
+		ReceiversFactories:  wi.rcvFac,
+		ProcessorsConfigs:   wi.procCfg,
+		ProcessorsFactories: wi.procFac,
+		ExportersConfigs:    wi.expCfg,
+		ExportersFactories:  wi.expFac,
+		ConnectorsConfigs:   wi.connCfg,
+		ConnectorsFactories: wi.connFac,
+		ExtensionsConfigs:   extCfg,
+		ExtensionsFactories: extFac,
+		AsyncErrorChannel:   make(chan error, 16),
+	}
+	scfg := quietServiceConfig(svcExts, wi.pipes)
+	srv, err := service.New(ctx, set, scfg)
+	if err != nil {
+		obs.NewErr = sptr(err.Error())
+		return obs
+	}
+	// the lifetime: Start; on error the caller shuts the service down (otelcol/collector.go); else Shutdown
+	done := make(chan struct{})
+	go func() {
+		defer close(done)
+		defer func() {
+			if r := recover(); r != nil {
+				obs.Panic = sptr(fmt.Sprint(r))
+			}
+		}()
+		serr := srv.Start(ctx)
+		w.log(Event{Ev: "svc_start_end", OK: bptr(serr == nil)})
+		obs.StartOK = bptr(serr == nil)
+		if serr != nil {
+			obs.StartErr = serr.Error()
+			is := false
+			w.mu.Lock()
+			for _, fe := range w.failErrs {
+				if errors.Is(serr, fe) {
+					is = true
+				}
+			}
+			w.mu.Unlock()
+			obs.StartIs = bptr(is)
+		}
+		w.mu.Lock()
+		nStartFail := len(w.failErrs)
+		w.mu.Unlock()
+		derr := srv.Shutdown(ctx)
+		w.log(Event{Ev: "svc_shutdown_end", OK: bptr(derr == nil)})
+		obs.StopOK = bptr(derr == nil)
+		if derr != nil {
+			obs.StopErr = derr.Error()
+		}
+		all := true
+		w.mu.Lock()
+		for _, fe := range w.failErrs[nStartFail:] {
+			if derr == nil || !errors.Is(derr, fe) {
+				all = false
+			}
+		}
+		w.mu.Unlock()
+		obs.StopIsAll = bptr(all)
+	}()
+	select {
+	case <-done:
+	case <-time.After(60 * time.Second):
+		obs.Timeout = true
+	}
+	return obs
+}
+
+func runC10(in, out string, seed int64) error { return runScripts(in, out, seed, runOne10) }
+
+func runScripts(in, out string, seed int64, one func(int, *Config, int64) Obs10) error {
+	lines, err := readLines(in)
+	if err != nil {
+		return err
+	}
+	results := make([][]byte, len(lines))
+	var wg sync.WaitGroup
+	var firstErr error
+	var emu sync.Mutex
+	workers := runtime.NumCPU()
+	if workers > 8 {
+		workers = 8
+	}
+	ch := make(chan int)
+	for k := 0; k < workers; k++ {
+		wg.Add(1)
+		go func() {
+			defer wg.Done()
+			for i := range ch {
+				var cfg Config
+				if err := json.Unmarshal(lines[i], &cfg); err != nil {
+					emu.Lock()
+					firstErr = fmt.Errorf("line %d: %w", i, err)
+					emu.Unlock()
+					continue
+				}
+				obs := one(i, &cfg, seed)
+				b, err := json.Marshal(obs)
+				if err != nil {
+					emu.Lock()
+					firstErr = err
+					emu.Unlock()
+					continue
+				}
+				results[i] = b
+			}
+		}()
+	}
+	for i := range lines {
+		ch <- i
+	}
+	close(ch)
+	wg.Wait()
+	if firstErr != nil {
+		return firstErr
+	}
+	f, err := os.Create(out)
+	if err != nil {
+		return err
+	}
+	bw := bufio.NewWriter(f)
+	for _, b := range results {
+		bw.Write(b)
+		bw.WriteByte('\n')
+	}
+	if err := bw.Flush(); err != nil {
+		return err
+	}
+	return f.Close()
+}
